@@ -203,6 +203,9 @@ func sliceIDs(w *c09World, l *linkedBuffer) []int {
 }
 
 func (w *c09World) opOpen(c *c09Case) int {
+	if w.fatal != "" {
+		return -1
+	}
 	atomic.StoreUint32(&w.client.unhealthy, 0) // the 30 s circuit-breaker timer fires
 	s, err := w.client.OpenStream()
 	if err != nil {
@@ -218,6 +221,9 @@ func (w *c09World) opOpen(c *c09Case) int {
 
 // write n bytes (prealloc: only allocate, as Reserve-ahead code would) and report the slots obtained
 func (w *c09World) opWrite(c *c09Case, e, sid, n int, prealloc bool) {
+	if w.fatal != "" {
+		return
+	}
 	s := w.stream(e, sid)
 	if s == nil || w.closed[[2]int{e, sid}] {
 		return
@@ -259,6 +265,9 @@ func (w *c09World) drained(e int) bool {
 }
 
 func (w *c09World) opFlush(c *c09Case, e, sid int) {
+	if w.fatal != "" {
+		return
+	}
 	s := w.stream(e, sid)
 	if s == nil {
 		return
@@ -302,9 +311,13 @@ func (w *c09World) opFlush(c *c09Case, e, sid int) {
 			w.fatal = "flush: the fallback data did not reach the peer within the bound"
 		}
 		if peerPend >= 0 {
-			c09Wait(func() bool { return c09PendLen(peerStream) > peerPend }, c09WaitBound)
+			if !c09Wait(func() bool { return c09PendLen(peerStream) > peerPend }, c09WaitBound) {
+				w.fatal = "flush: the fallback data did not reach the peer stream within the bound"
+			}
 		} else if e == 0 {
-			c09Wait(func() bool { return w.server.getStreamById(uint32(sid)) != nil }, c09WaitBound)
+			if !c09Wait(func() bool { return w.server.getStreamById(uint32(sid)) != nil }, c09WaitBound) {
+				w.fatal = "flush: the fallback data did not reach the peer (no stream accepted) within the bound"
+			}
 			time.Sleep(time.Millisecond)
 		} else {
 			time.Sleep(2 * time.Millisecond)
@@ -325,6 +338,9 @@ func (w *c09World) avail(s *Stream) int {
 }
 
 func (w *c09World) opRead(c *c09Case, e, sid, kind, k int) {
+	if w.fatal != "" {
+		return
+	}
 	s := w.stream(e, sid)
 	if s == nil || w.closed[[2]int{e, sid}] {
 		return
@@ -357,6 +373,9 @@ func (w *c09World) opRead(c *c09Case, e, sid, kind, k int) {
 }
 
 func (w *c09World) opRelease(c *c09Case, e, sid int) {
+	if w.fatal != "" {
+		return
+	}
 	s := w.stream(e, sid)
 	if s == nil || w.closed[[2]int{e, sid}] {
 		return
@@ -366,6 +385,9 @@ func (w *c09World) opRelease(c *c09Case, e, sid int) {
 }
 
 func (w *c09World) opReuse(c *c09Case, e, sid int) {
+	if w.fatal != "" {
+		return
+	}
 	s := w.stream(e, sid)
 	if s == nil || w.closed[[2]int{e, sid}] || s.sendBuf.sliceList.size() > 0 {
 		return
@@ -381,6 +403,9 @@ func (w *c09World) opReuse(c *c09Case, e, sid int) {
 }
 
 func (w *c09World) opClose(c *c09Case, e, sid int) {
+	if w.fatal != "" {
+		return
+	}
 	s := w.stream(e, sid)
 	if s == nil || w.closed[[2]int{e, sid}] {
 		return
@@ -396,7 +421,9 @@ func (w *c09World) opClose(c *c09Case, e, sid int) {
 		w.feat["close-with-unsent-data"] = true
 	}
 	wasOpen := s.IsOpen()
-	qfull := w.sess(e).queueManager.sendQueue.isFull()
+	// the close notification travels over the socket (nobody is woken) when the queue is full and, since
+	// c91430a, always once the stream is in fallback state
+	qfull := w.sess(e).queueManager.sendQueue.isFull() || s.inFallbackState
 	s.Close()
 	w.closed[[2]int{e, sid}] = true
 	if wasOpen && qfull {
@@ -410,13 +437,18 @@ func (w *c09World) opClose(c *c09Case, e, sid int) {
 		// the peer's stream (if it exists and is still open) becomes half-closed
 		ps := w.stream(1-e, sid)
 		if ps != nil && !w.closed[[2]int{1 - e, sid}] {
-			c09Wait(func() bool { return !ps.IsOpen() }, c09WaitBound)
+			if !c09Wait(func() bool { return !ps.IsOpen() }, c09WaitBound) {
+				w.fatal = "close: the close notification did not reach the peer stream within the bound"
+			}
 		}
 	}
 	w.rec(c, c09Op{Op: "close", E: e, Sid: sid})
 }
 
 func (w *c09World) opExtHold(c *c09Case, leave int) {
+	if w.fatal != "" {
+		return
+	}
 	var ids []int
 	total := 0
 	for _, l := range w.bm.lists {
@@ -437,6 +469,9 @@ func (w *c09World) opExtHold(c *c09Case, leave int) {
 }
 
 func (w *c09World) opExtReturn(c *c09Case) {
+	if w.fatal != "" {
+		return
+	}
 	for _, b := range w.ext {
 		w.bm.recycleBuffer(b)
 	}
@@ -447,6 +482,9 @@ func (w *c09World) opExtReturn(c *c09Case) {
 // put an element for stream sid directly into the queue (no wake-up): data for a stream that does
 // not exist (any more); also the way the queue is filled
 func (w *c09World) opInject(c *c09Case, toSrv bool, sid, n int) {
+	if w.fatal != "" {
+		return
+	}
 	from := w.client
 	if !toSrv {
 		from = w.server
@@ -482,6 +520,9 @@ func (w *c09World) opInject(c *c09Case, toSrv bool, sid, n int) {
 
 // make endpoint e's peer poll now (a wake-up without data): the real wakeUpPeer
 func (w *c09World) opWake(c *c09Case, e int) {
+	if w.fatal != "" {
+		return
+	}
 	w.sess(e).wakeUpPeer()
 	if !w.drained(e) {
 		w.fatal = "wake: the peer did not drain the queue within the bound"
@@ -614,6 +655,9 @@ func c09Directed(w *c09World, c *c09Case, which int) {
 }
 
 func (w *c09World) finish(c *c09Case) {
+	if w.fatal != "" {
+		return
+	}
 	// close every stream on both ends (ghost streams included), return the held slots
 	w.server.streamLock.Lock()
 	var ghosts []int
@@ -693,14 +737,14 @@ func (w *c09World) finish(c *c09Case) {
 }
 
 // one attempt at one history on a fresh session pair; returns the case and the wait that expired ("" = none)
-func c09RunJob(id, sub, qcap int, seed uint64, nops int) (c c09Case, fatal string) {
+func c09RunJob(id, attempt, sub, qcap int, seed uint64, nops int) (c c09Case, fatal string) {
 	c = c09Case{ID: id, QCap: qcap}
 	defer func() {
 		if e := recover(); e != nil {
 			fatal = fmt.Sprintf("panic: %v", e)
 		}
 	}()
-	cl, sv, err := c09Pair(id, uint32(qcap))
+	cl, sv, err := c09Pair(id*4+attempt, uint32(qcap)) // fresh paths: nothing is shared with an abandoned attempt
 	if err != nil {
 		return c, "setup failed: " + err.Error()
 	}
@@ -758,7 +802,7 @@ func TestVerif_C09(t *testing.T) {
 			defer func() { <-sem }()
 			var expired []string
 			for attempt := 0; ; attempt++ {
-				c, fatal := c09RunJob(j.id, j.sub, j.qcap, j.seed, nops)
+				c, fatal := c09RunJob(j.id, attempt, j.sub, j.qcap, j.seed, nops)
 				c.Retries = attempt
 				c.Expired = expired
 				if fatal != "" && attempt < 2 {
@@ -771,8 +815,8 @@ func TestVerif_C09(t *testing.T) {
 					switch {
 					case strings.Contains(fatal, "did not drain the queue"):
 						c.Oracle = append(c.Oracle, "C09:peer-never-drains-queue|in 3 of 3 runs of this history "+fatal)
-					case strings.Contains(fatal, "did not reach the peer"):
-						c.Oracle = append(c.Oracle, "C09:fallback-data-never-reaches-peer|in 3 of 3 runs of this history "+fatal)
+					case strings.Contains(fatal, "did not reach the peer"), strings.Contains(fatal, "close notification did not reach"):
+						c.Oracle = append(c.Oracle, "C09:socket-event-never-reaches-peer|in 3 of 3 runs of this history "+fatal)
 					default:
 						c.Note += " HARNESS: " + fatal
 					}
